@@ -4,6 +4,7 @@ import (
 	"encoding/binary"
 	"fmt"
 	"math"
+	"sort"
 	"strings"
 	"time"
 )
@@ -769,6 +770,9 @@ func (vm *VM) execGetIter() error {
 		for k := range objVal.Val {
 			iter.keys = append(iter.keys, k)
 		}
+		// Go's map order is random: iterate in ascending key order so that a
+		// loop over an object gives the same result on every run.
+		sort.Strings(iter.keys)
 	}
 
 	// Store iterator and push ID
